@@ -263,6 +263,7 @@ def main():
             answered = [done]
             scr = {"n": 0, "waited": 0, "bad": []}
             burst = 6
+            sent = 2 + burst  # every client of this phase, answered in time or not, may have a row
 
             def slow_scraper():
                 while not stop[0]:
@@ -277,8 +278,8 @@ def main():
                     scr["n"] += 1
                     if dt > 0.1:
                         scr["waited"] += 1
-                    if not (n0 <= tot <= done + burst) or "dhcp_active_leases" not in g or "dhcp_expired_leases" not in g:
-                        scr["bad"].append((n0, tot, done + burst, int(dt * 1000)))
+                    if not (n0 <= tot <= sent) or "dhcp_active_leases" not in g or "dhcp_expired_leases" not in g:
+                        scr["bad"].append((n0, tot, sent, int(dt * 1000)))
                     time.sleep(0.03)
 
             ths = [threading.Thread(target=slow_scraper) for _ in range(3)]
@@ -313,9 +314,13 @@ def main():
                     (len(scr["bad"]), scr["n"]) + scr["bad"][0]), {"engine": "c20-e2e", "phase": "slow-storage", "bad": scr["bad"][:10]})
             elif done == 0 or scr["n"] == 0:
                 leg.count("slow_storage_phase_observed_nothing", 1)
-            time.sleep(0.3)
-            check_gauges("slow-storage-after")
-            check_listing("slow-storage-after")
+            if done == 2 and len(seen) == burst:
+                # every exchange of the phase was answered: nothing is in flight, the store can be compared exactly
+                time.sleep(0.3)
+                check_gauges("slow-storage-after")
+                check_listing("slow-storage-after")
+            else:
+                leg.count("slow_storage_exchanges_unanswered_no_exact_comparison", 1)
         for pr in sb.procs:
             for line in pr.panics():
                 leg.violation("C20/handler-panic/%s" % base.panic_signature(line), line.strip(), {"engine": "c20-e2e"})
